@@ -55,6 +55,19 @@ PROPS = {
                 'non-trivial = not refused at position 0 with no event',
         'assumptions': ASSUME_COMMON,
     },
+    'C09': {
+        'lean': ['Purr.Props.C09'],
+        'suites': [
+            {'name': 'events', 'fields': ['W', 'B', 'P'], 'nontrivial': lambda rq, resp: True},
+            {'name': 'read', 'fields': ['V', 'EV', 'W', 'B'], 'nontrivial': nontrivial_read},
+            {'name': 'kinds'},
+        ],
+        'rule': 'events: all histories <= 4 events over 12 event shapes, all 64 bond-kind pairs on ring closures, random conformant histories up to '
+                '200 events (nested pops, roots inside branches, joins with any number and kind) plus a malformed stream; read: bounded-exhaustive '
+                'and random strings (the reader side of the inverse); kinds: the text of atom kinds over the product of bracket fields. '
+                'non-trivial = distinct request lines',
+        'assumptions': ASSUME_COMMON,
+    },
     'C13': {
         'lean': ['Purr.Props.C13'],
         'suites': [
